@@ -91,7 +91,8 @@ static void *thread_main(void *v)
     targ_t *a = v;
     my_tid = a->tid;
     wait_for_turn();
-    for (int k = 0; k < a->h->nops[a->tid]; k++) body_run(a->ctx, a->h->ops[a->tid][k]);
+    /* the thread's private state is digested after EVERY operation: a later operation that overwrites the same pixels cannot hide a wrong one */
+    for (int k = 0; k < a->h->nops[a->tid]; k++) { body_run(a->ctx, a->h->ops[a->tid][k]); uint64_t d = body_digest(a->ctx); a->ctx->digest = body_hash(&d, sizeof d, a->ctx->digest + (uint64_t)k); }
     alive[my_tid] = 0;
     decide(0, 0);                       /* hand the baton on; costs no preemption */
     my_tid = -1;
@@ -131,6 +132,14 @@ static int execute(const harness_t *h, const int *pfx, int plen, uint64_t got[MA
     }
     static uint32_t tile8[2 * TILE_STRIDE_WORDS], tile16[2 * TILE_STRIDE_WORDS];
     memset(tile8, 0x5a, sizeof tile8); memset(tile16, 0xa5, sizeof tile16);
+    static uint32_t tile_pix[64];
+    pixman_image_t *stile = body_make_shared_tile(tile_pix);
+    {   /* first use on the main thread */
+        uint32_t tmp[2][40]; memset(tmp, 0, sizeof tmp);
+        pixman_image_t *d = pixman_image_create_bits(PIXMAN_a8r8g8b8, 40, 2, &tmp[0][0], 160);
+        pixman_image_composite32(PIXMAN_OP_SRC, stile, NULL, d, 3, 0, 0, 0, 0, 0, 40, 2);
+        pixman_image_unref(d);
+    }
     static uint32_t acc_pix[DW * DH];
     pixman_image_t *sacc = body_make_shared_acc(acc_pix);
     {   /* first use on the main thread */
@@ -140,7 +149,7 @@ static int execute(const harness_t *h, const int *pfx, int plen, uint64_t got[MA
         pixman_image_unref(d);
     }
     NT = h->nthreads;
-    for (int t = 0; t < NT; t++) { body_setup(&ctx[t], t, shared); ctx[t].shared_grad = sgrad; ctx[t].shared_clipped = sclip; ctx[t].shared_acc = sacc; ctx[t].tile8 = tile8; ctx[t].tile16 = tile16; ctx[t].tile_ix = t; alive[t] = 1; }
+    for (int t = 0; t < NT; t++) { body_setup(&ctx[t], t, shared); ctx[t].shared_grad = sgrad; ctx[t].shared_clipped = sclip; ctx[t].shared_acc = sacc; ctx[t].shared_tile = stile; ctx[t].tile8 = tile8; ctx[t].tile16 = tile16; ctx[t].tile_ix = t; alive[t] = 1; }
     npoints = 0; prefix = pfx; prefix_len = plen; diverged = 0; trace_hash = 0;
     for (int t = 0; t < MAXT; t++) last_range[t] = -2;
     turn = -1;
@@ -150,13 +159,14 @@ static int execute(const harness_t *h, const int *pfx, int plen, uint64_t got[MA
     for (int t = 0; t < NT; t++) pthread_join(th[t], NULL);
     sched_on = 0;
     int bad = 0;
-    for (int t = 0; t < NT; t++) { got[t] = body_digest(&ctx[t]); if (got[t] != solo_digest[t]) bad = 1; body_teardown(&ctx[t]); }
+    for (int t = 0; t < NT; t++) { got[t] = body_digest(&ctx[t]) ^ ctx[t].digest; if (got[t] != solo_digest[t]) bad = 1; body_teardown(&ctx[t]); }
     /* the shared images were only read: the harness holds the only reference to each, so every unref must be the last one */
     shared_refs_bad = 0;
     if (!pixman_image_unref(shared)) shared_refs_bad |= 1;
     if (!pixman_image_unref(sgrad)) shared_refs_bad |= 2;
     if (!pixman_image_unref(sclip)) shared_refs_bad |= 4;
     if (!pixman_image_unref(sacc)) shared_refs_bad |= 8;
+    if (!pixman_image_unref(stile)) shared_refs_bad |= 16;
     if (shared_refs_bad) bad = 1;
     return bad;
 }
@@ -236,13 +246,13 @@ static void explore(const harness_t *h, int hid, const int *pfx, int plen, int p
 }
 
 /* ---------------- harnesses ---------------- */
-static harness_t H[96]; static int NH;
+static harness_t H[128]; static int NH;
 static void add_pair(int a, int b) { harness_t *h = &H[NH++]; memset(h, 0, sizeof *h); h->nthreads = 2; h->nops[0] = 2; h->ops[0][0] = a; h->ops[0][1] = b; h->nops[1] = 2; h->ops[1][0] = b; h->ops[1][1] = a; }
 static void add_triple(int a, int b, int c) { harness_t *h = &H[NH++]; memset(h, 0, sizeof *h); h->nthreads = 3; for (int t = 0; t < 3; t++) h->nops[t] = 1; h->ops[0][0] = a; h->ops[1][0] = b; h->ops[2][0] = c; }
 
-typedef struct { int first_dev_points[96]; int base[97]; } layout_t;
+typedef struct { int first_dev_points[128]; int base[129]; } layout_t;
 static layout_t L;
-static point_t base_trace[96][MAXP / 8]; static int base_np[96];
+static point_t base_trace[128][MAXP / 8]; static int base_np[128];
 
 /* case = (harness, first deviation). index 0 of a harness = the deviation-free schedule + determinism check */
 static void sched_case(uint64_t idx, void *ctx)
@@ -325,7 +335,7 @@ int main(int argc, char **argv)
               "function); thread exits are free switches. A case is one first deviation of one harness and the whole schedule subtree below it. states = schedules executed, "
               "transitions = executions; oracle: every thread's result digest equals its digest when run alone.";
     vf_assume("preemption at basic-block boundaries and sequentially consistent executions only; races inside a block are the free-running ThreadSanitizer pass's subject");
-    vf_assume("harnesses of 2 threads x 2 operations (all unordered pairs of 12 operation kinds, each thread in opposite order) and 3 threads x 1 operation");
+    vf_assume("harnesses of 2 threads x 2 operations (all unordered pairs of 14 operation kinds, each thread in opposite order) and 3 threads x 1 operation");
     if (n_interesting == 0) vf_cap("symbol table not available: no 'interesting' function ranges, only bound_all applies");
 
     /* Iterating the bound: the space "schedules" takes the tier's harness list at the lower bound (1 everywhere / 2 inside the dispatch functions) and is
@@ -336,7 +346,7 @@ int main(int argc, char **argv)
         NH = 0;
         for (int a = 0; a < N_BODY_OPS; a++) for (int bb = a; bb < N_BODY_OPS; bb++) {
             if (!wide && !((a == bb && a != OP_TRAP) || (a == OP_FAST_OVER && (bb == OP_GENERAL_ATOP || bb == OP_SAME_TWICE || bb == OP_SHARED_SRC)) ||
-                           (a == OP_GENERAL_ATOP && (bb == OP_GRADIENT || bb == OP_FILL)) || (a == OP_REGION && bb == OP_TRAP) || (a == OP_GRADIENT && bb == OP_SHARED_GRADIENT))) continue;
+                           (a == OP_GENERAL_ATOP && (bb == OP_GRADIENT || bb == OP_FILL)) || (a == OP_REGION && bb == OP_TRAP) || (a == OP_GRADIENT && bb == OP_SHARED_GRADIENT) || (a == OP_SHARED_TILE_SRC && bb == OP_SHARED_TILE_MASK))) continue;
             add_pair(a, bb);
         }
         if (wide) { add_triple(OP_FAST_OVER, OP_GENERAL_ATOP, OP_SAME_TWICE); add_triple(OP_GENERAL_ATOP, OP_GENERAL_ATOP, OP_GRADIENT); add_triple(OP_SHARED_SRC, OP_SHARED_SRC, OP_FILL); add_triple(OP_REGION, OP_TRAP, OP_FAST_OVER);
